@@ -16,9 +16,8 @@ C05 — executable specification: the text model of ISO 32000-1, written as lite
 place in Figure 9, more operands than the operator takes, `Q` without `q` in the same stream, a
 resource that does not exist, a colour component outside [0,1], text shown without a font, …):
 `none` = outside the domain of the property.  An operator with missing or ill-typed operands is
-*defined* here to do nothing (that is what property C05 demands).  pdfminer starts a form with a
-fresh text/colour state instead of the caller's; the domain therefore requires a form to set that
-state itself (`hasPrologue`).
+*defined* here to do nothing (that is what property C05 demands).  A form inherits the whole
+graphics state of its caller (8.10.1).
 -/
 import PdfVerif.Model.Content
 
@@ -303,25 +302,12 @@ def runStream (env : Env) (runForm : Form → GS → Res → Option (List Glyph)
   | none => none
   | some (s, gl) => if s.txt.isNone && s.stack.isEmpty then some gl else none
 
-/-- The state a form must set itself because pdfminer does not pass the caller's on:
-fill colour, stroke colour, Tc, Tw, Tz, TL, Tf, Tr, Ts — in this order, complete and well typed. -/
-def hasPrologue : List Instr → Bool
-  | c :: cS :: ⟨.Tc, [.num _]⟩ :: ⟨.Tw, [.num _]⟩ :: ⟨.Tz, [.num _]⟩ :: ⟨.TL, [.num _]⟩ ::
-      ⟨.Tf, [.name _, .num _]⟩ :: ⟨.Tr, [.num _]⟩ :: ⟨.Ts, [.num _]⟩ :: _ =>
-    (match c with
-      | ⟨.g, [.num _]⟩ | ⟨.rg, [.num _, .num _, .num _]⟩ | ⟨.k, [.num _, .num _, .num _, .num _]⟩ => true
-      | _ => false) &&
-    (match cS with
-      | ⟨.G, [.num _]⟩ | ⟨.RG, [.num _, .num _, .num _]⟩ | ⟨.K, [.num _, .num _, .num _, .num _]⟩ => true
-      | _ => false)
-  | _ => false
-
 /-- A form XObject invoked with graphics state `gs` (CTM already multiplied by `Matrix`). -/
 def runForm (env : Env) : Nat → Form → GS → Res → Option (List Glyph)
   | 0, _, _, _ => none
   | fuel + 1, fm, gs, res =>
     match parseInstrs fm.body [] with
-    | (is, []) => if hasPrologue is then runStream env (runForm env fuel) gs res is else none
+    | (is, []) => runStream env (runForm env fuel) gs res is
     | (_, _ :: _) => none
 
 /-- A page: initial graphics state with the page's CTM, the concatenated content streams. -/
